@@ -109,6 +109,19 @@ MUST_FIRE = [
      "                if q:\n                    self.theta_ *= 1 - self.s\n                else:\n                    self.theta_ *= 1 + self.s\n"),
     ("pwc-raw-sentinel-on-encoded-labels", ["C09"], ["R9.1"], P + "classifier/_parzen_window_classifier.py",
      "is_lbld = is_labeled(y, missing_label=1)", "is_lbld = is_labeled(y, missing_label=self.missing_label)"),
+    ("skl-partial-fit-resets-on-unfitted-flag", ["C13"], ["R13.4"], P + "classifier/_wrapper.py",
+     "        if hasattr(self, \"estimator_\"):\n            if fit_function != \"partial_fit\":\n                self.estimator_ = deepcopy(self.estimator)\n        else:\n            self.estimator_ = deepcopy(self.estimator)\n        # count labels per class",
+     "        if fit_function != \"partial_fit\" or not getattr(self, \"is_fitted_\", False):\n            self.estimator_ = deepcopy(self.estimator)\n        # count labels per class"),
+    ("sklreg-partial-fit-always-resets", ["C13"], ["R13.4"], P + "regressor/_wrapper.py",
+     "        if fit_function == \"fit\" or not hasattr(self, \"estimator_\"):\n            self.estimator_ = deepcopy(self.estimator)\n",
+     "        self.estimator_ = deepcopy(self.estimator)\n"),
+    ("skl-fit-reuses-fitted-estimator", ["C12", "C13"], ["R12.4", "R13.2"], P + "classifier/_wrapper.py",
+     "        if hasattr(self, \"estimator_\"):\n            if fit_function != \"partial_fit\":\n                self.estimator_ = deepcopy(self.estimator)\n        else:\n            self.estimator_ = deepcopy(self.estimator)\n        # count labels per class",
+     "        if not hasattr(self, \"estimator_\"):\n            self.estimator_ = deepcopy(self.estimator)\n        # count labels per class"),
+    ("sklreg-mask-default-sentinel", ["C12", "C09"], ["R12.1", "R9.1"], P + "regressor/_wrapper.py",
+     "is_lbld = is_labeled(y, missing_label=self.missing_label_)", "is_lbld = is_labeled(y)"),
+    ("vote-vectors-weights-not-copied", ["C12", "C05"], ["R12.5", "R5.2"], P + "utils/_aggregation.py",
+     "w, ensure_2d=False, ensure_all_finite=False, dtype=float, copy=True", "w, ensure_2d=False, ensure_all_finite=False, dtype=float"),
     # ---- C03
     ("split-set-state-deleted", ["C03"], ["R3"], BZ,
      "        self.random_state_.set_state(random_state_state)\n", "        pass\n"),
